@@ -5,7 +5,7 @@ import NfpmModel.Ar
   names and link names of at most 100 bytes, numeric fields that fit their octal width.
 
     block (512 bytes)  name[100] mode[8] uid[8] gid[8] size[12] mtime[12] chksum[8] typeflag[1] linkname[100]
-                       magic[6] version[2] ("ustar " " \0" GNU, "ustar\0" "00" USTAR) uname[32] gname[32] devmajor[8] devminor[8] zeros[167]
+                       magic[6] version[2] ("ustar " " \0" GNU, "ustar\0" "00" USTAR) uname[32] gname[32] devmajor[8] devminor[8] prefix[155] zeros[12]
     strings            copied, NUL-filled;  numbers: leading-zero octal, one digit less than the field, then NUL;
                        GNU only: a number too large for that is written big-endian binary with the top bit set
     chksum             sum of all 512 bytes with the chksum field read as 8 blanks: six octal digits, NUL, blank
@@ -71,6 +71,9 @@ structure Hdr where
   /-- devmajor/devminor written as octal zero (templateV7Plus: every ordinary member) or left NUL
       (writeRawFile: the extension-record member that precedes a PAX member) -/
   dev : Bool := true
+  /-- the USTAR prefix field (offset 345, 155 bytes): the directory part of a name that does not fit the name field;
+      GNU headers keep this area NUL (nfpm sets no access or change time) -/
+  pfx : Bytes := []
 deriving DecidableEq, Repr
 
 def devField (h : Hdr) : Bytes := if h.dev then octField 8 0 else zeros 8
@@ -80,7 +83,7 @@ def fields (h : Hdr) (chk : Bytes) : List Bytes :=
   [ strField 100 h.name, numField h.flavor 8 h.mode, numField h.flavor 8 h.uid, numField h.flavor 8 h.gid,
     numField h.flavor 12 h.size, numField h.flavor 12 h.mtime,
     chk, [h.typeflag], strField 100 h.linkname, h.flavor.magic, h.flavor.version, strField 32 h.uname, strField 32 h.gname,
-    devField h, devField h, zeros 167 ]
+    devField h, devField h, strField 155 h.pfx, zeros 12 ]
 
 def byteSum (b : Bytes) : Nat := (b.map (·.toNat)).sum
 
@@ -146,7 +149,7 @@ def readHeader (blk : Bytes) : Option Hdr :=
                   name := readStr (slice blk 0 100), mode, uid, gid, size, mtime,
                   typeflag := (slice blk 156 1).headD 0, linkname := readStr (slice blk 157 100),
                   uname := readStr (slice blk 265 32), gname := readStr (slice blk 297 32),
-                  dev := slice blk 329 8 != zeros 8 }
+                  dev := slice blk 329 8 != zeros 8, pfx := readStr (slice blk 345 155) }
     | _, _, _, _, _, _ => none
 
 def isZeroBlock (b : Bytes) : Bool := b.all (· == 0)
